@@ -1,6 +1,7 @@
 import json
 import re
 import time
+import tokenize
 from collections.abc import Callable, Sequence
 from contextlib import suppress
 from functools import cache, partial
@@ -80,7 +81,8 @@ def version() -> str:  # pragma: no cover
 def get_source_lines(filepath: str) -> list[str]:
     # Only "\n" ends a line as far as line numbers are concerned ("\r\n" and "\r" have been
     # translated already). `str.splitlines()` would also split on form feeds, "\x85", etc.
-    return Path(filepath).read_text("utf8").split("\n")
+    with tokenize.open(filepath) as f:
+        return f.read().split("\n")
 
 
 def is_ignored_via_comment(error: Error) -> bool:
